@@ -183,7 +183,7 @@ def check(cx):
     r5 = cx.rule("C03.5", "FLOW/MPT: TransactionCoordinator::abort — the single funnel of explicit rollback, handle drop and failed statements — stores TransactionState::Aborted and persists the id on every success path", floor=2)
     f = cx.guard(r5, "abort", p.fn, K.COORD + "::abort")
     if f:
-        st = [s for _, s in core.region_aggregates(f, range(len(f.blocks)), "multithreading::coordinator::TransactionState")
+        st = [s for g in K.family(p, f) for _, s in core.region_aggregates(g, range(len(g.blocks)), "multithreading::coordinator::TransactionState")
               if s["rv"]["variant"] == "Aborted"]
         cx.verdict(bool(st), r5, "state", f.where(), "entry.state = Aborted", "abort does not store Aborted")
         T = p.must_reach_set({"storage::page::PageZeroHeader::mark_transaction_aborted"})
@@ -204,7 +204,7 @@ def check(cx):
         cx.ok(r6, "none", "", "no statement-reachable caller of Btree::dealloc")
     for c in callers:
         path = p.path(stmt_roots[0], {c}) or []
-        cx.bad(r6, "caller:" + c, p.fn(c).where(),
+        cx.bad(r6, "caller:" + c, p.where_of(c),
                "pages of a dropped tree are freed inside the transaction (%s): after ROLLBACK the table is "
                "unreadable and the next allocation reuses its pages (D17)" % " -> ".join(path[-4:]))
 
